@@ -255,7 +255,7 @@ def work_b(item):
     return {"item": item, "execs": execs, "high": worst, "fails": [(list(p), repr(b)[:200]) for p, b in fails[:2]]}
 
 
-def run_in_session(fn_name, arg, timeout=180):
+def run_in_session(fn_name, arg, timeout=180, module="vf.checks.c15"):
     """Runs vf.checks.c15.<fn_name>(arg) in a fresh interpreter in its own session; returns its JSON result."""
     d = core.scratch_dir("c15s-%d-%d" % (os.getpid(), int(time.time() * 1000) % 100000))
     out_path = os.path.join(d, "result.json")
@@ -265,7 +265,7 @@ def run_in_session(fn_name, arg, timeout=180):
     env["PYTHONPATH"] = "%s:%s" % (core.REPO, core.ROOT)
     env["JOBLIB_TEMP_FOLDER"] = d
     log = open(os.path.join(d, "out.txt"), "wb")
-    proc = subprocess.Popen([sys.executable, "-m", "vf.checks.c15", fn_name, json.dumps(arg), out_path],
+    proc = subprocess.Popen([sys.executable, "-m", module, fn_name, json.dumps(arg), out_path],
                             stdin=subprocess.DEVNULL, stdout=log, stderr=log, env=env, cwd=core.ROOT, start_new_session=True)
     try:
         proc.wait(timeout=timeout)
